@@ -430,6 +430,19 @@ def World.exec (w : World) (op : String) (args : List String) : World :=
         | .conn wr => w.say s!"ret {boolDigit wr.ep.c.bClose} {wr.ep.c.closeReason}"
         | _ => w
       | none => w
+    | "inject" =>
+      match w.getEp (n 0) with
+      | some r => match r.node with
+        | .conn wr =>
+          match parseHex (a 2) with
+          | some bytes =>
+            if n 1 ≤ bytes.length * 8 then
+              let (c', pid) := wr.ep.c.writeBits w.env ((bytesToBits bytes).take (n 1))
+              (w.putConn (n 0) r { wr with ep := { wr.ep with c := c' } }).say s!"ret {pid}"
+            else w.say "ret none"
+          | none => w.say "ret none"
+        | _ => w
+      | none => w
     | "chans" =>
       match w.getEp (n 0) with
       | some r => match r.node with
